@@ -80,6 +80,39 @@ func netCheckRead(rep *Reporter, h string, chunks [][]byte, want int) {
 	})
 }
 
+// netCheckReadReused: a header object that has seen another stream before (one that ended inside
+// the header, or a complete one) reads a valid header exactly like a new object does.
+func netCheckReadReused(rep *Reporter, h string, before []byte, n int) {
+	wire, _, _, werr, known := impl.NetWrite(h, n)
+	if !known || werr != nil {
+		return
+	}
+	size := gen.NetSize(h)
+	line := fmt.Sprintf("N %s readafter %s then %s", h, impl.Hex(before), impl.Hex(wire))
+	safely(rep, line, func() {
+		for _, chunks := range [][][]byte{{append(append([]byte{}, wire...), 0xAA, 0xBB)}, gen.OneByOne(wire)} {
+			length, ret, handed, err, known := impl.NetReadReused(h, [][]byte{before}, chunks)
+			if !known {
+				return
+			}
+			rep.Case(line)
+			if err != nil {
+				rep.Viol("ReadFrom on a header object used before fails on a valid header", line, fmt.Sprintf("length %d: %v", n, err))
+				return
+			}
+			if length != n {
+				rep.Viol("ReadFrom on a header object used before does not recover the written length", line, fmt.Sprintf("wrote %d, read %d", n, length))
+				return
+			}
+			if handed != size || ret != size {
+				rep.Viol("ReadFrom on a header object used before took / reported a different number of bytes than the header width", line,
+					fmt.Sprintf("took %d, returned %d, header width %d", handed, ret, size))
+				return
+			}
+		}
+	})
+}
+
 // netCheckWrite evaluates SetLength + WriteTo for one length and, if the length is
 // representable, the read-back under fragmentation (all chunkings when `full`).
 func netCheckWrite(rep *Reporter, h string, n int, full bool) {
@@ -215,6 +248,23 @@ func runC16(t gen.Tier, r *gen.Rng, rep *Reporter) {
 			if n, err := strconv.Atoi(s); err == nil {
 				netCheckWrite(rep, h, n, true)
 			}
+		}
+	}
+	// a header object is reused: after a stream that ended inside the header at every offset, and after a complete header
+	for _, h := range gen.NetHeaders {
+		for i := 0; i < t.N(400, 8000); i++ {
+			n := r.Intn(gen.NetMax(h) + 1)
+			if i < len(gen.NetBoundaries) && netRepresentable(h, gen.NetBoundaries[i]) {
+				n = gen.NetBoundaries[i]
+			}
+			prev, _, _, perr, _ := impl.NetWrite(h, r.Intn(gen.NetMax(h)+1))
+			if perr != nil {
+				continue
+			}
+			for cut := 0; cut <= len(prev); cut++ {
+				netCheckReadReused(rep, h, prev[:cut], n)
+			}
+			netCheckReadReused(rep, h, r.Bytes(r.Intn(gen.NetSize(h))), n)
 		}
 	}
 	// arbitrary contents
